@@ -4,7 +4,7 @@ import Driver.Util
 Line protocol for C11 (molar / mass / volumetric views and units of measure).
 
   cfg-thermo <mw,mw,…>                       → ok <k> | hyp-violated MW>0
-  cfg-units <name>=<dim>=<factor> …          → ok | hyp-violated nonzero <name>
+  cfg-units <name>=<pint dimensionality exponents e1,…,e8>=<factor> …   → ok | hyp-violated nonzero <name>
   cfg-conv <u>=<u'>=<pint factor u→u'> …     → ok | hyp-violated factor_consistent <u> <u'>
   new1 <th> <ph> <T> <P> <row>               → ok <sid>
   newm <th> <phases> <T> <P> <mat>           → ok <sid>
@@ -29,6 +29,10 @@ Line protocol for C11 (molar / mass / volumetric views and units of measure).
   getprop <s> <dim> <unit> <V>               → x - <float>              (get_property('F_<dim>', units))
   setprop <s> <dim> <unit> <x> <V>           → ok
   unitfor <dim> <unit>                       → x - <factor>             (units= of an indexer constructor)
+  scale <s> <q> | empty <s>                  → ok <0|1> <phase(s)>
+  rdagg <s> <dim> <V>                        → m <-|v<id>> <row>        (stream.mol / .mass / .vol)
+  getflowall <s> <unit> <V>                  → m <-|v<id>> <row>        (get_flow(units) with the default key ...)
+  any line carrying V                        → hyp-violated V-is-a-function-of(th,phase,T,P) … if the same key was seen with other volumes
   any of them                                → err <Name>
 
 Numbers in: exact rationals `n/d`.  Matrices: rows separated by `|`, entries by `,`; `_` = no rows.
@@ -115,6 +119,10 @@ def parseOp? (t : List String) : Option Op :=
   | ["getprop", s, d, u, v] => do pure (.getProp (← s.toNat?) (← parseDim? d) u (← parseMat? v))
   | ["setprop", s, d, u, x, v] => do pure (.setProp (← s.toNat?) (← parseDim? d) u (← parseRat? x) (← parseMat? v))
   | ["unitfor", d, u] => do pure (.unitFor (← parseDim? d) u)
+  | ["scale", s, q] => do pure (.scale (← s.toNat?) (← parseRat? q))
+  | ["empty", s] => do pure (.empty (← s.toNat?))
+  | ["rdagg", s, d, v] => do pure (.readAgg (← s.toNat?) (← parseDim? d) (← parseMat? v))
+  | ["getflowall", s, u, v] => do pure (.getFlowAll (← s.toNat?) u (← parseMat? v))
   | _ => none
 
 def showOut : Out → String
@@ -127,7 +135,7 @@ def showOut : Out → String
 
 def parseUnit? (s : String) : Option UnitDef :=
   match splitOn1 s '=' with
-  | [n, d, f] => do pure { name := n, dim := (← parseDim? d), factor := (← parseRat? f) }
+  | [n, d, f] => do pure { name := n, dimv := (← (splitComma d).mapM (·.toInt?)), factor := (← parseRat? f) }
   | _ => none
 
 def relClose (a b : Rat) : Bool :=
@@ -146,33 +154,70 @@ def checkConv (units : List UnitDef) (s : String) : Option String :=
     | _, _, _ => some s!"{u} {u'}"
   | _ => some s
 
-def step (w : World) (line : String) : World × String :=
+/-- the molar-volume matrix an operation carries, with the stream it belongs to -/
+def opV : Op → Option (Nat × Mat)
+  | .readVol s V | .readF s _ V | .writeF s _ _ V | .get s _ _ _ V | .put s _ _ _ _ V | .putRow s _ _ _ V
+  | .getFlow s _ _ _ V | .setFlow s _ _ _ _ V | .getTotal s _ V | .setTotal s _ _ V | .getData s _ _ _ _ V
+  | .setData s _ _ _ _ _ V | .getProp s _ _ V | .setProp s _ _ _ V | .readAgg s _ V | .getFlowAll s _ V => some (s, V)
+  | _ => none
+
+/-- driver state: the model world and, as a hypothesis monitor for `VLine` / `RunOk`, every molar-volume row seen so
+far keyed by (chemicals, phase, T, P): the parameter must be a *function* of that key -/
+structure St where
+  w : World := {}
+  vseen : List ((Nat × Char × Rat × Rat) × List Rat) := []
+
+def rowsClose (a b : List Rat) : Bool :=
+  a.length == b.length && (a.zip b).all (fun (x, y) => relClose x y)
+
+/-- check the rows of `V` against what was seen for the same key; returns the offending key or the extended table -/
+def monitorV (st : St) (sid : Nat) (V : Mat) : Except String (List ((Nat × Char × Rat × Rat) × List Rat)) :=
+  let s := st.w.stream sid
+  let (T, P) := st.w.c.tcs s.tc
+  let phases := if s.multi then s.phases else [st.w.c.phs s.ph]
+  (phases.zip V).foldlM (fun tbl (ph, row) =>
+    let key := (s.th, ph, T, P)
+    match tbl.find? (fun e => e.1 == key) with
+    | some e => if rowsClose e.2 row then .ok tbl else .error s!"{ph}"
+    | none => .ok ((key, row) :: tbl)) st.vseen
+
+def step (st : St) (line : String) : St × String :=
+  let w := st.w
   match splitWs line with
   | ["cfg-thermo", mws] =>
     match parseRow? mws with
     | some l =>
-      if mwPositive l then ({ w with thermos := w.thermos ++ [l] }, s!"ok {w.thermos.length}")
-      else (w, "hyp-violated MW>0")
-    | none => (w, "bad-op")
+      if mwPositive l then ({ st with w := { w with thermos := w.thermos ++ [l] } }, s!"ok {w.thermos.length}")
+      else (st, "hyp-violated MW>0")
+    | none => (st, "bad-op")
   | "cfg-units" :: us =>
     match us.mapM parseUnit? with
     | some l =>
       match l.find? (fun d => !(d.dim == .other || d.factor != 0)) with
-      | some d => (w, s!"hyp-violated nonzero {d.name}")
-      | none => ({ w with units := l }, "ok")
-    | none => (w, "bad-op")
+      | some d => (st, s!"hyp-violated nonzero {d.name}")
+      | none => ({ st with w := { w with units := l } }, "ok")
+    | none => (st, "bad-op")
   | "cfg-conv" :: cs =>
     match cs.filterMap (checkConv w.units) with
-    | [] => (w, "ok")
-    | bad :: _ => (w, s!"hyp-violated factor_consistent {bad}")
+    | [] => (st, "ok")
+    | bad :: _ => (st, s!"hyp-violated factor_consistent {bad}")
   | t =>
     match parseOp? t with
-    | none => (w, "bad-op")
+    | none => (st, "bad-op")
     | some op =>
-      match w.exec op with
-      | .ok (w1, out) => (w1, showOut out)
-      | .error e => (w, s!"err {e.toString}")
+      let mon : Except String St :=
+        match opV op with
+        | some (sid, V) =>
+          if V.isEmpty || sid ≥ w.s.nstreams then .ok st
+          else (monitorV st sid V).map (fun tbl => { st with vseen := tbl })
+        | none => .ok st
+      match mon with
+      | .error k => (st, s!"hyp-violated V-is-a-function-of(th,phase,T,P) {k}")
+      | .ok st1 =>
+        match w.exec op with
+        | .ok (w1, out) => ({ st1 with w := w1 }, showOut out)
+        | .error e => (st1, s!"err {e.toString}")
 
-def main : IO Unit := Driver.loop World.init step
+def main : IO Unit := Driver.loop ({} : St) step
 
 end Driver.C11
